@@ -100,7 +100,7 @@ pub fn run(ctx: &mut Ctx) {
     ctx.sample("op=10 calculate_client_S(B, x, a, u, g=7, N' = 2^31-1) and op=2 calculate_interleaved(S with 5 low-order zero bytes)".to_string());
 
     // ---- implementation-only oracle: textbook values recomputed independently on many sessions ----
-    let per_thread = if ctx.quick() { 400 } else { 20_000 };
+    let per_thread = if ctx.quick() { 400 } else { 60_000 };
     let seed = ctx.seed;
     let res = par(16, |t| {
         let mut rng = Rng::new(seed, &format!("C03/oracle/{}", t));
